@@ -535,6 +535,9 @@ def eval_xformat(out, h, drv, base, cases, findings, stats):
                 proj = drop_fields(c["dto_mk"])
                 mlines.append("enrich\t%s\t%s\t%s\t%s" % (hx(b(c["pkg"])), sx_package(proj), glob_table(proj, globs), dur_table(proj)))
                 midx.append((c["id"], "mk"))
+                full_ = c["dto_mk"]
+                mlines.append("enrich\t%s\t%s\t%s\t%s" % (hx(b(c["pkg"])), sx_package(full_), glob_table(full_, globs), dur_table(full_)))
+                midx.append((c["id"], "mkfull"))
         rc, mo, me = vlib.run_lines(drv, mlines)
         if rc != 0 or len(mo) != len(mlines):
             raise RuntimeError("model driver failed rc=%s %d/%d %s" % (rc, len(mo), len(mlines), me[-400:]))
@@ -584,7 +587,11 @@ def eval_xformat(out, h, drv, base, cases, findings, stats):
             mj0 = pkg_obs(obs["mkjson0"]) if "mkjson0" in obs else None
             mm = pkg_obs(obs_model(model[(cid, "mk")])) if (cid, "mk") in model else None
             if mk == mj:
-                pass
+                if mk != mj0 and (cid, "mkfull") in model:
+                    # all declared fields reach the target (a repaired handleTarget): the model to compare
+                    # with is enrichment of the full projection, not mk_target's (which mirrors C16-F2)
+                    mm = pkg_obs(obs_model(model[(cid, "mkfull")]))
+                    stats["makefile_repaired"] += 1
             elif mk == mj0 and "makefile-drops-fields" in findings:
                 # class evaluated on the observations: the Makefile result differs from the JSON
                 # result and equals the JSON result of the package with exactly these fields removed
@@ -711,6 +718,11 @@ def scan_obs(status, pay):
     return (status, pay if isinstance(pay, str) else "")
 
 
+def strip_dropped_dto(dump):
+    return json.dumps([{k: v for k, v in t.items() if k not in ("fingerprint", "env", "platforms", "has_platforms", "timeout")}
+                       for t in json.loads(dump)], sort_keys=True)
+
+
 def eval_scanners(out, h, drv, cases, findings, stats):
     """cases: [(kind 'mk'|'sh', content bytes[, token limit])] -- real scanner vs Loader.scan_*_file with the
     real YAML decoder as oracle; panic classes decided by Loader.mk_guard."""
@@ -756,6 +768,17 @@ def eval_scanners(out, h, drv, cases, findings, stats):
             else:
                 out.violation("%s annotation scanner: %s on %r" % ("Makefile" if k == "mk" else "script", ist, c[:80]), rep)
                 continue
+        if mst == "panic" and guard is False and ist in ("ok", "error"):
+            # the property's oracle holds on the implementation where the model (faithful to the
+            # recorded defect C16-F1) predicts the panic: a repaired scanner, accepted in either form
+            stats["scanner_repaired"] += 1
+            continue
+        if k == "mk" and io != mo_ and io[0] == mo_[0] == "ok" and io[1] == mo_[1] and strip_dropped_dto(io[2]) == strip_dropped_dto(mo_[2]):
+            # same DTOs except that the implementation delivers (some of) the four declared fields the
+            # model's mk_target drops (C16-F2 mirrored): a repaired handleTarget; values are judged by the
+            # cross-format comparison with BUILD.json
+            stats["makefile_repaired"] += 1
+            continue
         if io != mo_:
             out.violation("correspondence Loader.scan_%s ~ real scanner broke on %r: impl %s, model %s" % (
                 "makefile" if k == "mk" else "script", c[:60], io[:2], mo_[:2]),
@@ -992,13 +1015,13 @@ def robustness_cases(rng, xcases, n_mut):
 DET_DIRS = ["pa", "pb/x", "pc", ".", "pd/y/z", "pe"]     # no directory inside another one, apart from the root
 
 
-def restrict_package(rng, d, used, root, collide):
-    """make a generated package fit next to the other files of its directory: names not used yet
-    (unless a collision is wanted), root package without glob patterns (the reference glob table
-    is per directory content, and the root contains every other package)"""
+def restrict_package(rng, d, used, root):
+    """make a generated package fit next to the other files of its directory: names not used yet,
+    root package without glob patterns (the reference glob table is per directory content, and the
+    root contains every other package)"""
     ts = []
     for t in d["targets"]:
-        if t["name"] in used and not collide:
+        if t["name"] in used:
             continue
         if root:
             t = {k: v for k, v in t.items() if k != "exclude_inputs"}
@@ -1010,7 +1033,7 @@ def restrict_package(rng, d, used, root, collide):
     if "aliases" in d:
         als = []
         for a in d["aliases"]:
-            if a["name"] in used and not collide:
+            if a["name"] in used:
                 continue
             used.add(a["name"])
             als.append(a)
@@ -1019,29 +1042,56 @@ def restrict_package(rng, d, used, root, collide):
 
 
 def build_dcase(rng, drv, i):
+    """a workspace of 2-4 directories with 1-3 BUILD files each, all names distinct; one workspace in
+    three gets exactly ONE label declared twice by two files of one directory (target/target,
+    target/alias, alias/target or alias/alias, in file order) and nothing else that is rejected"""
     dirs = rng.sample(DET_DIRS, 2 + rng.below(3))
-    collide = rng.chance(1, 5)
-    files, frags = [], []
+    plan = []
     for pkg in dirs:
         used = set()
         for fmt in rng.sample(["json", "yaml", "star", "mk"], 1 + rng.below(3)):
-            d = restrict_package(rng, gen_package(rng, wild=False), used, pkg == ".", collide)
+            d = restrict_package(rng, gen_package(rng, wild=False), used, pkg == ".")
             if fmt == "star":
                 d.pop("default_platforms", None)
             if fmt == "mk":
-                dm = mk_projection(d)
-                if dm is None or not dm["targets"]:
-                    continue
-                txt = render_makefile(rng, dm)
-                if not model_guards(drv, [txt])[0]:
-                    continue        # the panicking shape (known finding, judged elsewhere) would kill the whole LoadPackages
-                files.append([pkg, "Makefile", txt])
-                frags.append([pkg, drop_fields(strip_private(dm))])
-            else:
-                fn, rend = RENDER[fmt]
-                files.append([pkg, fn, rend(rng, d)])
-                frags.append([pkg, d])
-    return {"kind": "determinism", "id": i, "files": files, "frags": frags, "collide": collide}
+                d = {"targets": d["targets"]}
+            plan.append([pkg, fmt, d])
+    collide = None
+    if rng.chance(1, 3):
+        cands = [(x, y) for x in range(len(plan)) for y in range(len(plan)) if x != y and plan[x][0] == plan[y][0]]
+        if cands:
+            x, y = rng.choice(cands)
+            first = plan[x][2]
+            kinds = (["T"] if first["targets"] else []) + (["A"] if first.get("aliases") else [])
+            if kinds:
+                k1 = rng.choice(kinds)
+                name = rng.choice(first["targets"] if k1 == "T" else first["aliases"])["name"]
+                k2 = "T" if plan[y][1] == "mk" else rng.choice(["T", "A"])
+                if k2 == "T":
+                    plan[y][2]["targets"] = plan[y][2]["targets"] + [{"name": name, "command": "echo dup"}]
+                else:
+                    plan[y][2]["aliases"] = plan[y][2].get("aliases", []) + [{"name": name, "actual": ":" + name}]
+                collide = k1 + k2
+    files, frags, alt = [], [], []
+    for pkg, fmt, d in plan:
+        if fmt == "mk":
+            dm = mk_projection(d)
+            if dm is None or not dm["targets"]:
+                continue
+            txt = render_makefile(rng, dm)
+            if not model_guards(drv, [txt])[0]:
+                continue        # the panicking shape (known finding, judged elsewhere) would kill the whole LoadPackages
+            files.append([pkg, "Makefile", txt])
+            frags.append([pkg, drop_fields(strip_private(dm))])
+            alt.append([pkg, strip_private(dm)])
+        else:
+            fn, rend = RENDER[fmt]
+            files.append([pkg, fn, rend(rng, d)])
+            frags.append([pkg, d])
+            alt.append([pkg, d])
+    # frags: what the loaders deliver today (Makefile annotations without the four dropped fields, C16-F2);
+    # frags_repaired: the same with those fields (what a repaired Makefile loader delivers)
+    return {"kind": "determinism", "id": i, "files": files, "frags": frags, "frags_repaired": alt, "collide": collide}
 
 
 def materialise_ws(root, files, order_rng=None):
@@ -1111,7 +1161,7 @@ WORKERS = (1, 2, 16)
 
 
 def eval_determinism(out, h, drv, base, rng, dcases, stats):
-    pats = sorted(set().union(*[patterns_of(d) for c in dcases for _, d in c["frags"]]) if dcases else [])
+    pats = sorted(set().union(*[patterns_of(d) for c in dcases for _, d in c["frags"] + c.get("frags_repaired", [])]) if dcases else [])
     globs = reference_globs(h, base, pats)
     lines, idx = [], []
     for c in dcases:
@@ -1128,6 +1178,7 @@ def eval_determinism(out, h, drv, base, rng, dcases, stats):
     for c in dcases:
         mlines.append(merge_line(c["frags"], globs))
         mlines.append(merge_line(vlib.Rng(rng.next()).shuffle(c["frags"]), globs))
+        mlines.append(merge_line(c.get("frags_repaired", c["frags"]), globs))
     rc, mo, me = vlib.run_lines(drv, mlines)
     if rc != 0 or len(mo) != len(mlines):
         raise RuntimeError("model driver failed on merge rc=%s %d/%d %s" % (rc, len(mo), len(mlines), me[-400:]))
@@ -1150,11 +1201,15 @@ def eval_determinism(out, h, drv, base, rng, dcases, stats):
                           dict(c, observed={"%s/%d" % kk: list(v) for kk, v in obs.items()}))
             continue
         stats["nontrivial"].add(("det", json.dumps(c["files"], sort_keys=True)))
-        m1, m2 = load_projection(mo[2 * k], model=True), load_projection(mo[2 * k + 1], model=True)
+        m1, m2 = load_projection(mo[3 * k], model=True), load_projection(mo[3 * k + 1], model=True)
+        m3 = load_projection(mo[3 * k + 2], model=True)
         if m1 != m2:
             out.violation("Loader.load_all gives different results for two arrival orders of the same fragments (contradicts "
                           "C16_merge_order_independent): %s vs %s" % (diff_hint(m1), diff_hint(m2)),
                           {"theorem": "C16_merge_order_independent", "case": c, "model": [list(m1), list(m2)]}, no_input=True)
+        elif m1 not in vals and m3 in vals:
+            stats["makefile_repaired"] += 1
+            stats["traces"] += len(obs)
         elif m1 not in vals:
             out.violation("correspondence Loader.load_all ~ LoadPackages + BuildNodeMapFromPackages broke: model %s, implementation %s "
                           "(all six loads of the workspace agree with each other)" % (diff_hint(m1), diff_hint(next(iter(vals)))),
@@ -1374,7 +1429,7 @@ def hang_probe(out_box, h, grog_future, drv, base, findings):
 def new_stats():
     return {"xformat_cases": 0, "xformat_loads": 0, "makefile_cases": 0, "makefile_dropped": 0, "makefile_bare_panics": 0, "traces": 0,
             "outcomes": {}, "nontrivial": set(),
-            "scanner_cases": 0, "scanner_outcomes": {}, "scanner_known_panics": 0,
+            "scanner_cases": 0, "scanner_outcomes": {}, "scanner_known_panics": 0, "scanner_repaired": 0, "makefile_repaired": 0,
             "robust_cases": 0, "robust_outcomes": {}, "robust_known": 0, "hangs_reexamined": 0,
             "det_cases": 0, "det_loads": 0, "det_outcomes": {},
             "cli_runs": 0, "cli_known": 0, "cli_outcomes": {}, "cli_corrupt": {}}
@@ -1468,6 +1523,12 @@ def run(out, tier):
     pool.shutdown()
     judge_hang_probe(out, hang_box, findings, st)
 
+    if st["scanner_repaired"]:
+        out.notes.append("the Makefile scanner no longer panics on %d inputs of the shape excluded by mk_guard (C16-F1 looks repaired): "
+                         "Loader.mk_handle still mirrors the panic and C16_scan_no_panic_refuted speaks about that model -- update Loader.v" % st["scanner_repaired"])
+    if st["makefile_repaired"]:
+        out.notes.append("Makefile annotations now deliver fingerprint/platforms/timeout/environment_variables on %d packages (C16-F2 looks "
+                         "repaired): Loader.mk_target still mirrors the drop -- update Loader.v" % st["makefile_repaired"])
     evaluations = st["xformat_loads"] + st["scanner_cases"] + st["robust_cases"] + st["det_loads"] + st["cli_runs"]
     out.cov.update({
         "evaluations": evaluations,
